@@ -124,7 +124,16 @@ def pipeline(name, src, debug=0, R=None, timeout=10.0, reg=None, keep=False):
     except Exception as e:
         return {"outcome": classify_exc(e), "diags": [], "stdout": out.getvalue(),
                 "trace": traceback.format_exc()[-1500:]}
-    res = {"outcome": "ok", "raw": [diag_tuple(e) for e in f.errors._inner],
+    # the answer is what gets printed: both formatters must be able to render the diagnostics
+    try:
+        with watchdog(timeout):
+            text_h = str(HumanizedErrorsFormatter([f], use_colors=False))
+            text_j = str(JSONErrorsFormatter([f]))
+    except Hang as e:
+        return {"outcome": "hang@" + hang_site(e.__traceback__), "diags": [], "stdout": out.getvalue()}
+    except Exception as e:
+        return {"outcome": classify_exc(e), "diags": [], "stdout": out.getvalue(), "trace": traceback.format_exc()[-1500:]}
+    res = {"outcome": "ok", "raw": [diag_tuple(e) for e in f.errors._inner], "printed": text_h, "printed_json": text_j,
            "diags": [diag_tuple(e) for e in f.errors], "status": f.errors.status,
            "stdout": out.getvalue()}
     if keep:
@@ -175,3 +184,21 @@ def main_inprocess(argv, cwd):
         sys.argv = old_argv
         os.chdir(old_cwd)
     return {"exit": code, "stdout": out.getvalue(), "stderr": err.getvalue(), "exc": exc}
+
+
+_fresh = {}
+
+
+def pipeline_fresh(name, src):
+    """`pipeline` in a fresh interpreter (no history at all); cached per (name, text)"""
+    import json
+    key = (name, src)
+    if key not in _fresh:
+        code = ("import sys, json; sys.path.insert(0, %r); from impl import pipeline; a = json.load(sys.stdin); "
+                "r = pipeline(a[0], a[1]); print(json.dumps({k: r.get(k) for k in ('outcome', 'msg', 'raw', 'diags', 'status')}))" % os.path.dirname(os.path.abspath(__file__)))
+        e = dict(os.environ, PYTHONPATH=REPO)
+        p = subprocess.run([PY, "-c", code], input=json.dumps([name, src]), stdout=subprocess.PIPE, stderr=subprocess.PIPE, text=True, timeout=120, env=e)
+        if p.returncode != 0:
+            raise Infra("pipeline_fresh failed: " + p.stderr[-300:])
+        _fresh[key] = json.loads(p.stdout.strip().split("\n")[-1])
+    return dict(_fresh[key])
